@@ -5,6 +5,7 @@
 # SPDX-License-Identifier: MIT
 
 import datetime as dt
+import math
 from typing import Sequence, overload
 
 from lenskit.data import Dataset, DatasetBuilder, ItemListCollection
@@ -75,6 +76,12 @@ def split_global_time(
         times = [_unix_time(t) for t in time]
         if end is not None:
             end = _unix_time(end)
+        if ts_col.dtype.kind != "f":
+            # integer times: the comparisons with a fractional cut-off are those with its
+            # ceiling, which stay exact beyond 2**53 (the float comparison does not)
+            times = [_int_bound(t) for t in times]
+            if end is not None:
+                end = _int_bound(end)
     else:
         times = [_make_time(t) for t in time]
         if end is not None:
@@ -133,6 +140,13 @@ def _unix_time(t: int | float | str | dt.datetime) -> int | float:
         return t
     else:
         return _make_time(t).timestamp()
+
+
+def _int_bound(t: int | float) -> int | float:
+    if isinstance(t, float) and abs(t) < 2**63:
+        return math.ceil(t)
+    else:
+        return t
 
 
 def _make_time(t: int | float | str | dt.datetime) -> dt.datetime:
